@@ -211,6 +211,28 @@ def step (d : DState) (tok : List String) : DState × List String :=
       if d.pols.any (fun e => e.1 == n) then ({ d with cur := some n }, [])
       else ({ d with cur := some n, pols := d.pols ++ [(n, { cfg := cfg })] }, [])
   | "echo" :: rest => (d, ["@" ++ rest.headD ""])
+  | "use-defs" :: nl :: nr :: holes =>
+    -- use_definitions over product<types<M>, L0..L(nl-1), R0..R(nr-1)> with holes i:j
+    let nl := nl.toNat?.getD 0
+    let nr := nr.toNat?.getD 0
+    let hs : List (Nat × Nat) := holes.filterMap (fun h =>
+      match h.splitOn ":" with
+      | [a, b] => match a.toNat?, b.toNat? with
+        | some x, some y => some (x, y)
+        | _, _ => none
+      | _ => none)
+    let prod := product [[0], List.range nl, List.range nr]
+    let defined := fun (t : List Nat) => match t with
+      | [_, i, j] => !(hs.contains (i, j))
+      | _ => false
+    let pr := fun (t : List Nat) => match t with
+      | [_, i, j] => s!" {i}:{j}"
+      | _ => " ?"
+    let regs := (useDefinitions defined Generated.aggregateThreshold prod).flatten
+    let sorted := isortBy (fun (a b : List Nat) => a < b) regs
+    let calls := (List.range nl).flatMap (fun i => (List.range nr).map (fun j =>
+      if regs.contains [0, i, j] then s!" {1000 * i + j}" else " E"))
+    (d, ["product" ++ String.join (prod.map pr), "registered" ++ String.join (sorted.map pr), "calls" ++ String.join calls])
   | "fwd-names" :: names =>
     (d, ["fwd " ++ (writeForwardDeclarations (sortedSet (names.flatMap (extractNames Generated.keywords)))).replace "\n" "|"])
   | "fwd-type" :: _ => (d, ["fwd-type needs the raw line"])
